@@ -20,8 +20,10 @@ func init() { runners["C20"] = runC20 }
 //   (a) the model's answer for that step of the history (cache threaded through the history),
 //   (b) direct reflection done here, independently of the engine and of the model (the oracle), and
 //   (c) the first answer the same lookup gave earlier in the same history (before / after flooding).
-// The attribute cache of the engine is process-wide and cannot be reset through the public API, so the
-// histories of all cases concatenate; by C20_cache_transparent the predictions do not depend on that.
+// The attribute cache of the engine is process-wide; the hooks of hooks/verif_hooks_attr.go reset it before
+// every case (so a replayed case starts from the same empty cache as the model) and report its size
+// accounting after every case.  Without the hooks the histories of all cases concatenate, which by
+// C20_cache_transparent does not change any predicted answer.
 
 // Optional hooks, nil unless a file harness/c20_hooks.go sets them from /repo/verif_hooks.go:
 //
@@ -639,9 +641,19 @@ func runC20(cases string, res *Result) {
 		}
 		if c20CacheStats != nil {
 			n, cur, max := c20CacheStats()
+			res.Hist["cache_stats_checked"]++
 			if n != cur || n > max {
-				res.add(Finding{Kind: "oracle", Where: "cache-accounting", Case: map[string]interface{}{"stream": stream},
-					Detail: fmt.Sprintf("attributeCache: %d entries, currSize %d, maxSize %d", n, cur, max)})
+				// the answers are unaffected (that is the theorem); what fails is the accounting the model mirrors
+				res.add(Finding{Kind: "disagreement", Where: "cache-accounting", Case: c, Expected: "entries = currSize <= maxSize",
+					Observed: fmt.Sprintf("entries=%d currSize=%d maxSize=%d", n, cur, max),
+					Detail:   fmt.Sprintf("after this history attributeCache has %d entries, currSize %d, maxSize %d (currSize must be the number of entries and at most maxSize)", n, cur, max)})
+			} else if want, ok := c["cache_len"].(float64); ok && want >= 0 && c20CacheReset != nil && n != int(want) {
+				// no eviction in this history: the cache holds exactly the distinct (struct type, name) pairs
+				res.add(Finding{Kind: "disagreement", Where: "cache-keys", Case: c, Expected: strconv.Itoa(int(want)), Observed: strconv.Itoa(n),
+					Detail: "number of cache entries after a history without eviction differs from the model (keys are (element struct type, name))"})
+			}
+			if n > res.Hist["cache_entries_max"] {
+				res.Hist["cache_entries_max"] = n
 			}
 		}
 	})
@@ -654,5 +666,7 @@ func runC20(cases string, res *Result) {
 	res.Hist["distinct_struct_type_name_pairs"] = len(pairsSeen)
 	if c20CacheStats == nil {
 		res.Notes = append(res.Notes, "no cache hook: the size accounting of attributeCache (currSize = number of entries <= maxSize) is covered by the translator shape check and C20_cache_bounded only")
+	} else {
+		res.Notes = append(res.Notes, "cache reset before every case and entries = currSize <= maxSize observed after every case through hooks/verif_hooks_attr.go; entry count compared with the model on histories without eviction")
 	}
 }
